@@ -138,6 +138,7 @@ def optimize_high_level_cmd_stream(sg, arch):
         address = lut_state.find_best_address(lut_start, lut_end, lut_tens.storage_size())
         lut_tens.equivalence_id = uuid.uuid4()
         lut_tens.address = address
+        cmd.lut_address = address
         cmd.ps.primary_op.activation.lut_index = (address - lut_start) // slot_size
         lut_index_of_ps[cmd.ps] = cmd.ps.primary_op.activation.lut_index
         lut_state = lut_state.put(lut_tens)
